@@ -268,7 +268,7 @@ def run_check(mod, tier, seed, replay=None):
     if hard_inconcl:
         reasons.append(
             "%d evaluations ended in an unexpected exception / hard inconclusive, first: %s"
-            % (len(hard_inconcl), json.dumps(hard_inconcl[0])[:600])
+            % (len(hard_inconcl), json.dumps(hard_inconcl[0])[:1500])
         )
     minimum = mod.MIN_NONTRIVIAL[tier] if not replay else 0
     if len(nontrivial_hashes) < minimum:
@@ -368,7 +368,7 @@ def _account(e, case, check_id, known, violations, known_hits, inconcl, worst):
         else:
             violations.append({"key": e["key"], "event": e, "case": case})
     elif e["ok"] is None:
-        inconcl.append({"key": e["key"], "info": e.get("info"), "hard": (e.get("info") or {}).get("hard")})
+        inconcl.append({"key": e["key"], "case": case, "info": e.get("info"), "hard": (e.get("info") or {}).get("hard")})
 
 
 def main(argv):
